@@ -5,6 +5,7 @@
 -/
 import Algobra.Model.UPoly
 import Algobra.Model.Regex
+import Algobra.Model.Parse
 import Algobra.Gen.Consts
 namespace Algobra
 open Algobra Regex
@@ -42,7 +43,9 @@ def parseIntDigits (s : String) : Option Nat :=
 /-! ### binfield.ElementFromString -/
 namespace Bin
 
-def parse (n m : Nat) (varName : String) (s : String) : Except Kind Nat :=
+/-- the parser run through the general regular-expression engine (`partial`, opaque to proofs):
+    used for variable names outside `Parse.simpleName`, and as a cross-check of the tokeniser -/
+def parseRx (n m : Nat) (varName : String) (s : String) : Except Kind Nat :=
   let env := fun e => if e == "regexp.QuoteMeta(f.varName)" then some (quoteMeta varName) else none
   match (assemble env Gen.binElemPattern).bind compile with
   | none => .error .inputValue
@@ -70,6 +73,19 @@ def parse (n m : Nat) (varName : String) (s : String) : Except Kind Nat :=
       | .ok v => .ok (reduce n m v)
       | .error k => .error k
 
+/-- `ElementFromString`: for simple variable names the matches come from the total tokeniser
+    `Parse.matchesBin` (the same matches the engine finds; `none` = they do not cover the input),
+    the post-processing is the one of `parseRx` -/
+def parse (n m : Nat) (varName : String) (s : String) : Except Kind Nat :=
+  if Parse.simpleName varName then
+    match Parse.matchesBin varName s with
+    | none => .error .parsing
+    | some ms =>
+      match parseRx.go ms 0 with
+      | .ok v => .ok (reduce n m v)
+      | .error k => .error k
+  else parseRx n m varName s
+
 end Bin
 
 def binOps (n m : Nat) (varName : String := "a") : FOps Nat where
@@ -96,6 +112,7 @@ def binOps (n m : Nat) (varName : String := "a") : FOps Nat where
   gen := Bin.reduce n m 2
   enc := toString
   dec := fun s => if Prime.isDigits s then some s.toNat! else none
+  ownVar := some varName
 
 /-! ### univariate printing and parsing -/
 namespace UPoly
@@ -124,8 +141,9 @@ def mapAdd {κ : Type} [BEq κ] (F : FOps α) (m : List (κ × α)) (k : κ) (c 
   if m.any (·.1 == k) then m.map fun (k', v) => if k' == k then (k', F.add v c) else (k', v)
   else m ++ [(k, c)]
 
-/-- `polynomialStringToMap` : degree ↦ coefficient, or the error kind -/
-def stringToMap (F : FOps α) (varName : String) (s : String) : Except Kind (List (Nat × α)) :=
+/-- `polynomialStringToMap` : degree ↦ coefficient, or the error kind — through the general
+    regular-expression engine (`partial`, opaque to proofs) -/
+def stringToMapRx (F : FOps α) (varName : String) (s : String) : Except Kind (List (Nat × α)) :=
   let env := fun e =>
     if e == "field.RegexElement(true)" then some (F.regex true)
     else if e == "regexp.QuoteMeta(*varName)" then some (quoteMeta varName) else none
@@ -164,6 +182,22 @@ def stringToMap (F : FOps α) (varName : String) (s : String) : Except Kind (Lis
                 | .error k => .error k
                 | .ok d => go t (mapAdd F out d c)
       go ms.toList []
+
+/-- the names for which the total tokeniser `Parse.matchesU` is used -/
+def directOK (F : FOps α) (varName : String) : Bool :=
+  Parse.simpleName varName &&
+    (match F.ownVar with
+     | none => true
+     | some w => Parse.simpleName w)
+
+/-- `polynomialStringToMap`: matches from the total tokeniser for simple names (`none` = the
+    matches do not cover the input: Parsing error), post-processing of `stringToMapRx` -/
+def stringToMap (F : FOps α) (varName : String) (s : String) : Except Kind (List (Nat × α)) :=
+  if directOK F varName then
+    match Parse.matchesU F.ownVar varName s with
+    | none => .error .parsing
+    | some ms => stringToMapRx.go F ms []
+  else stringToMapRx F varName s
 
 /-- `PolynomialFromString` (after "fix: reduce parsed polynomial") -/
 def parse (R : Ring α) (s : String) : Except Kind (Option (UPoly α)) :=
@@ -264,5 +298,6 @@ def extOps (p n : Nat) (g : List Nat) : FOps (UPoly Nat) where
   gen := Ext.unwrap (UPoly.ofNats (Ext.ring p g) [0, 1])
   enc := Ext.enc
   dec := Ext.dec
+  ownVar := some "a"
 
 end Algobra
